@@ -5,7 +5,12 @@
 //!                         + YaccGrammar::new_from_ast_with_validity_info)
 //!           `YF`          ASTWithValidityInfo::from_str (kind taken from the %grmtools section)
 //!                         + YaccGrammar::new_from_ast_with_validity_info
+//!           `ZN` `ZG` `ZE` `ZO` `ZU`  `YaccGrammar::<u32>::new_with_storaget(kind, text)` (= `YaccGrammar::new`), the one-call
+//!                         route: text -> grammar; `ZF`: `<YaccGrammar<u32> as FromStr>::from_str(text)`
 //!           `L`           LRNonStreamingLexerDef::<DefaultLexerTypes<u32>>::from_str
+//!           `LO`          LRNonStreamingLexerDef::new_with_options(text, flags) with flags = allow_wholeline_comments on,
+//!                         everything else unspecified.  `new_with_options` unwraps the result of the %grmtools section
+//!                         parser (a malformed section is outside what it accepts): such a text is answered `NOTRUN hdr`.
 //!           `HS`          as `H0`, but on a thread with an 8 MiB stack (the size of a Linux main
 //!                         thread; the harness worker has 256 MiB): probes for native-stack
 //!                         exhaustion, which aborts the process (the orchestrator then reports
@@ -194,9 +199,37 @@ fn run_yacc(src: &str, kind: &str) -> String {
     o
 }
 
-fn run_lex(src: &str) -> String {
+/// the one-call routes: text -> YaccGrammar
+fn run_yacc_direct(src: &str, kind: &str) -> String {
     let mut o = String::new();
-    match LRNonStreamingLexerDef::<DefaultLexerTypes<u32>>::from_str(src) {
+    let res = if kind == "F" {
+        <YaccGrammar<u32> as std::str::FromStr>::from_str(src)
+    } else {
+        YaccGrammar::<u32>::new_with_storaget(yacckind(kind), src)
+    };
+    match &res {
+        Ok(_) => o.push_str("OK"),
+        Err(errs) => {
+            let kinds = errs.iter().map(debug_kind).collect();
+            errs_line(&mut o, src, kinds, errs);
+        }
+    }
+    o
+}
+
+fn run_lex(src: &str, with_options: bool) -> String {
+    let mut o = String::new();
+    if with_options && GrmtoolsSectionParser::new(src, false).parse().is_err() {
+        return "NOTRUN hdr".to_string();
+    }
+    let res = if with_options {
+        let mut f = lrlex::UNSPECIFIED_LEX_FLAGS;
+        f.allow_wholeline_comments = Some(true);
+        LRNonStreamingLexerDef::<DefaultLexerTypes<u32>>::new_with_options(src, f)
+    } else {
+        LRNonStreamingLexerDef::<DefaultLexerTypes<u32>>::from_str(src)
+    };
+    match res {
         Ok(_) => o.push_str("OK"),
         Err(errs) => {
             let kinds = errs.iter().map(debug_kind).collect();
@@ -239,7 +272,9 @@ fn main() {
                     Err(_) => "PANIC in 8MiB thread".to_string(),
                 }
             }
-            "L" => run_lex(&src),
+            "L" => run_lex(&src, false),
+            "LO" => run_lex(&src, true),
+            w if w.starts_with('Z') => run_yacc_direct(&src, &w[1..]),
             w if w.starts_with('Y') => run_yacc(&src, &w[1..]),
             _ => "BADCASE".to_string(),
         }));
